@@ -574,6 +574,30 @@ def op_remove_reactions(E, m, S):
              ref=(IDENT if arg == "unknown" else (lambda R, i=r.id: R.remove_reaction(i, orphans))))
     if r.id not in m.reactions and not m._contexts:
         S.removed = getattr(S, "removed", []) + [r]
+    if r.id not in m.reactions:
+        S.detached = getattr(S, "detached", []) + [r]      # also when removed inside a context (comes back on exit)
+
+
+def op_detached_edit(E, m, S):
+    """the user keeps a removed reaction and edits it while it is outside the model; it may come back through
+    add_reactions or through the exit of the context it was removed in"""
+    rs = [r for r in getattr(S, "detached", []) if r.id not in m.reactions]
+    if not rs:
+        return
+    r = rs[-1]
+    how = E.pick(S.tag("edit"), ["bounds", "knock_out", "negate"])
+    R = getattr(S, "ref", None)
+    if R is not None:
+        R.valid = False         # no reference clause for objects outside the model
+    if how == "bounds":
+        x = E.real(S.tag("x"), -B, 0)
+        y = E.real(S.tag("y"), 0, B)
+        r.bounds = (x, y)
+    elif how == "knock_out":
+        r.knock_out()
+    else:
+        r *= -1
+    S.log.append(("detached:" + how, {}, None))
 
 
 def op_add_model_metabolites(E, m, S):
@@ -793,6 +817,7 @@ OPS = {
     "groups": (op_groups, False, False),
     "repair": (op_repair, False, False),
     "copy": (op_copy, False, False),
+    "detached_edit": (op_detached_edit, False, False),
 }
 SUB = [k for k, v in OPS.items() if v[2]]
 REVERSIBLE = [k for k, v in OPS.items() if v[1]]
